@@ -41,6 +41,7 @@ func (m *SimpleMovingVariance) Add(value float64) (float64, bool) {
 	m.mu.Lock()
 	defer m.mu.Unlock()
 	changed := false
+	previous := m.variance.Get()
 	if m.average.seenSamples > 0 {
 		m.variance.Add(math.Pow(value-m.average.Get(), 2))
 	}
@@ -55,7 +56,8 @@ func (m *SimpleMovingVariance) Add(value float64) (float64, bool) {
 		normalized = (value - mean) / stdev
 	}
 
-	if stdev != m.stdev || normalized != m.normalized {
+	// (m.stdev may have been overwritten by Update, so compare the variance itself as well)
+	if variance != previous || stdev != m.stdev || normalized != m.normalized {
 		changed = true
 	}
 	m.stdev = stdev
